@@ -8,6 +8,7 @@ package yang
 // reader must obtain what a sequential run obtains.
 
 import (
+	"bytes"
 	"fmt"
 	"os"
 	"sort"
@@ -56,6 +57,12 @@ func govcSnapshot(ms *Modules) string {
 		} else {
 			out = append(out, "find /m:c/a:ax = "+f.Path())
 		}
+	}
+	// printing (goes through the indenting writer of pkg/indent for every description and child)
+	for _, n := range []string{"m", "a"} {
+		var buf bytes.Buffer
+		ToEntry(ms.Modules[n]).Print(&buf)
+		out = append(out, buf.String())
 	}
 	for _, ns := range []string{"urn:m", "urn:a", "urn:none"} {
 		mod, err := ms.FindModuleByNamespace(ns)
